@@ -14,6 +14,10 @@ type propFn func(prop string, res *Result, pool *DrvPool, r *Rng)
 
 var props = map[string]propFn{}
 
+// searchMode widens every generator (x4) when bin/check is looking for a
+// failing input after a proof obligation or the correspondence broke.
+var searchMode bool
+
 func main() {
 	tier := flag.String("tier", "quick", "quick|thorough")
 	seed := flag.Uint64("seed", 1, "seed")
@@ -21,7 +25,7 @@ func main() {
 	drv := flag.String("ppdrv", "", "path of the model driver")
 	replay := flag.String("replay", "", "replay file")
 	det := flag.Uint64("det", 0, "print the determinism digest for this seed and exit")
-	flag.Bool("search", false, "search mode: a proof or correspondence broke, look harder for a failing input")
+	flag.BoolVar(&searchMode, "search", false, "search mode: a proof or correspondence broke, look harder for a failing input")
 	flag.Parse()
 	log.SetOutput(io.Discard)
 	if *det != 0 {
